@@ -1,0 +1,9 @@
+//go:build !verif
+
+package keeper
+
+import "github.com/chain4energy/c4e-chain/x/cfedistributor/types"
+
+func verifWrapBankKeeper(bankKeeper types.BankKeeper) types.BankKeeper {
+	return bankKeeper
+}
